@@ -82,5 +82,5 @@ def check(case):
 
 
 def phases(tier):
-    n = {"quick": 16 * 2500, "thorough": 16 * 50000}[tier]
+    n = {"quick": 16 * 2000, "thorough": 16 * 50000}[tier]
     return [dict(name="main", kind="hypothesis", strategy=cases(tier), check=check, examples=n)]
